@@ -94,6 +94,13 @@ func mat(a []int) canvas.Matrix {
 	return canvas.Matrix{{float64(a[0]), float64(a[1]), float64(a[2])}, {float64(a[3]), float64(a[4]), float64(a[5])}}
 }
 
+func hline() *canvas.Path {
+	p := &canvas.Path{}
+	p.MoveTo(0, 0)
+	p.LineTo(6, 0)
+	return p
+}
+
 func tri() *canvas.Path {
 	p := &canvas.Path{}
 	p.MoveTo(0, 0)
@@ -198,6 +205,8 @@ func (m *machine) apply(cl Call) error {
 		ctx.SetZIndex(a[0])
 	case "DrawPath":
 		ctx.DrawPath(f(0), f(1), tri())
+	case "DrawLine":
+		ctx.DrawPath(f(0), f(1), hline())
 	case "DrawText":
 		ctx.DrawText(f(0), f(1), m.text)
 	case "DrawImage":
@@ -334,7 +343,7 @@ func (m *machine) fitStaysOnLattice(margin int) bool {
 		switch e.Kind {
 		case "text":
 			return false
-		case "path":
+		case "path", "line":
 			c2.RenderPath(e.Path, e.Style, e.M)
 		case "image":
 			c2.RenderImage(e.Img, e.M)
@@ -367,7 +376,9 @@ func (m *machine) observe() ([]AbsEvent, string) {
 		ev := AbsEvent{Kind: e.Kind, M: im}
 		if e.Kind == "path" {
 			ev.St = absStyle(e.Style)
-			if !bytes.Equal(f64bytes(e.Data), f64bytes(tri().Data())) {
+			if bytes.Equal(f64bytes(e.Data), f64bytes(hline().Data())) {
+				ev.Kind = "line"
+			} else if !bytes.Equal(f64bytes(e.Data), f64bytes(tri().Data())) {
 				return nil, fmt.Sprintf("event %d: path data changed: %v", i, e.Data)
 			}
 		} else {
@@ -423,7 +434,7 @@ func exec(s *Scenario) (ms []core.Mismatch) {
 		if e.M != o.M {
 			ms = append(ms, core.Mismatch{Signature: "matrix-" + e.Kind, Detail: fmt.Sprintf("event %d (%s, step %d) matrix %v, expected %v", i, e.Kind, e.Step, o.M, e.M)})
 		}
-		if e.Kind == "path" && e.St != o.St {
+		if (e.Kind == "path" || e.Kind == "line") && e.St != o.St {
 			sig := "style"
 			if o.St.Dash != e.St.Dash {
 				sig = "style-dash"
@@ -576,7 +587,7 @@ func randCall(r *rand.Rand, theme int) Call {
 			case 3:
 				return Call{"DrawImage", []int{ri(-2, 3), ri(-2, 3)}}
 			default:
-				return Call{"DrawPath", []int{ri(-2, 3), ri(-2, 3)}}
+				return Call{[]string{"DrawPath", "DrawLine"}[r.Intn(2)], []int{ri(-2, 3), ri(-2, 3)}}
 			}
 		}
 	}
@@ -636,8 +647,10 @@ func randCall(r *rand.Rand, theme int) Call {
 		return Call{"Pop", nil}
 	case 26:
 		return Call{"SetZIndex", []int{ri(-1, 1)}}
-	case 27, 28:
+	case 27:
 		return Call{"DrawPath", []int{ri(-2, 3), ri(-2, 3)}}
+	case 28:
+		return Call{[]string{"DrawPath", "DrawLine"}[r.Intn(2)], []int{ri(-2, 3), ri(-2, 3)}}
 	case 29:
 		return Call{[]string{"DrawText", "DrawImage"}[r.Intn(2)], []int{ri(-2, 3), ri(-2, 3)}}
 	case 30:
